@@ -23,12 +23,33 @@ EXPLANATION = (
 )
 
 
+def _s6_polars_stacking(program, res):
+    """rows -> blocks stacks one frame per control-table row; the value cells of different rows name different columns, which may differ in
+    dtype.  Pandas' concat finds a common dtype; Polars' how="vertical" demands identical schemas and raises — the stacking has to be relaxed."""
+    m = program.method("polars_model", "PolarsModel", "rowrecs_to_blocks", inherited=False)
+    res.analysed(m)
+    stacks = [c for c in ast.walk(m.node) if isinstance(c, ast.Call) and dotted_name(c.func) == "pl.concat"
+              and any(kw.arg == "how" and isinstance(kw.value, ast.Constant) and str(kw.value.value).startswith(("vertical", "diagonal")) for kw in c.keywords)]
+    if not stacks:
+        raise AnalysisError("PolarsModel.rowrecs_to_blocks: the vertical stacking (pl.concat(..., how='vertical…')) was not found")
+    for c in stacks:
+        how = next(kw.value.value for kw in c.keywords if kw.arg == "how")
+        if how.endswith("_relaxed"):
+            res.ok("C17-S6", f"Polars rows -> blocks stacks the per-row frames with how='{how}' (columns are brought to a common dtype, as Pandas does)")
+        else:
+            res.fail_at("C17-S6", m, "polars-strict-stacking",
+                        f"Polars rows -> blocks stacks the per-control-row frames with how='{how}', which demands identical dtypes: a row record with an int column x and a float "
+                        f"column y (control table v: x, y) is transformed by Pandas and refused by Polars (SchemaError: type Float64 is incompatible with expected type Int64)", c)
+
+
 def run(program, res, tier):
     res.rule("C17-S1", "inverse swaps blocks_in and blocks_out under the strictness assertion")
     res.rule("C17-S2", "transform applies blocks_in first, then blocks_out, chaining the result (Python and SQL)")
     res.rule("C17-S3", "compose applies `other` first, then `self`")
     res.rule("C17-S4", "both data models implement the two conversions with the abstract signature")
     res.rule("C17-S5", "Pandas conversions relabel columns by position only after ordering them by the record specification")
+    res.rule("C17-S6", "Polars stacks value columns of different dtypes the way Pandas does")
+    _s6_polars_stacking(program, res)
     rm = program.cls("cdata", "RecordMap")
     # ---- S1
     inv = rm.methods.get("inverse")
@@ -195,7 +216,9 @@ def run(program, res, tier):
     # every composite that compose() returns is derived from the sequential application of the two maps to the probe
     # (the only place where the middle specifications s1.blocks_out / s2.blocks_in meet)
     n_ret = 0
-    d3c = depsmod.Deps(g3, cp.params(), control=True)  # a composite chosen by a test on the probe's result counts as derived from it
+    # *data* dependence: the names the second map gives its results exist only in the probe's result; a composite merely *chosen* by a
+    # test on that result (control dependence) and assembled from the probe's input alone loses them
+    d3c = depsmod.Deps(g3, cp.params())
     for nn in g3.stmt_nodes(("return",)):
         v = nn.stmt.value
         if v is None or (isinstance(v, ast.Constant) and v.value is None):
@@ -203,16 +226,25 @@ def run(program, res, tier):
         if not any(isinstance(cc, ast.Call) and dotted_name(cc.func) == "RecordMap" for cc in ast.walk(v)):
             continue
         n_ret += 1
-        roots = d3c.roots_at(nn, v) | d3c.own_guard_roots(nn)
+        roots = d3c.roots_at(nn, v)
         if "call:transform" in roots:
             res.ok("C17-S3", f"compose(): returned map (line {nn.stmt.lineno}) is derived from the probe pushed through both transforms")
         else:
             res.fail_at("C17-S3", cp, "composite-not-from-sequential-application",
                         f"compose() can return `{unparse(v)[:80]}`, assembled from {sorted(r for r in roots if not r.startswith('call:') and not r.startswith('g:'))[:4]} "
-                        f"without pushing a probe through `{other}` and then `self`: the middle specifications ({other}.blocks_out against self.blocks_in) are never "
-                        f"confronted, so the composite can differ from applying the two maps in sequence", v)
+                        f"without the result of pushing a probe through `{other}` and then `self`: what the second map calls its outputs is only in that result, so "
+                        f"the composite can differ from applying the two maps in sequence (blocks B -> blocks A, then blocks A' -> rows with A' naming A's cells the other "
+                        f"way round: the composite returns x and y swapped)", v)
     if n_ret < 3:
         raise AnalysisError("RecordMap.compose: returned composites not found")
+    # compose() documents (self.compose(other)).transform(d) == self.transform(other.transform(d)): it has to return something that transforms
+    for nn in g3.stmt_nodes(("return",)):
+        v = nn.stmt.value
+        if v is None or (isinstance(v, ast.Constant) and v.value is None):
+            res.fail_at("C17-S3", cp, "composite-is-None",
+                        "compose() returns None when the composite maps row records to row records: s1 = A.map_from_rows(); s1.inverse().compose(s1) is None, so "
+                        "(…).transform(rows) raises AttributeError and rows >> (s1 >> s1.inverse()) raises TypeError, while rows >> s1 >> s1.inverse() returns rows; the None is also "
+                        "returned when the sequence is a column exchange, not the identity", nn.stmt)
     ao = rm.methods.get("act_on")
     res.analysed(ao)
     ok = False
